@@ -470,7 +470,7 @@ def build_world(workdir, seed, n_genes=24, taxonomy='d2_bal', n_cells_per_leaf=6
     from cell_type_mapper.diff_exp.markers import find_markers_for_all_taxonomy_pairs
     from cell_type_mapper.type_assignment.marker_cache_v2 import create_marker_gene_lookup_from_ref_list
 
-    assert n_genes <= 30 and n_query <= 40
+    assert n_genes <= 400 and n_query <= 40
     rng = np.random.default_rng([int(seed), 7919])
     spec = normalise_spec(taxonomy_spec(taxonomy) if isinstance(taxonomy, str) else taxonomy)
     h = spec['hierarchy']
